@@ -191,11 +191,28 @@ pub fn load_known_findings() -> Vec<KnownFinding> {
 
 /// exact match, or prefix match when the listed class ends in '*'
 fn class_matches(listed: &str, actual: &str) -> bool {
-    if let Some(pre) = listed.strip_suffix('*') {
-        actual.starts_with(pre)
-    } else {
-        listed == actual
+    // glob with '*' = any (possibly empty) run of characters
+    let parts: Vec<&str> = listed.split('*').collect();
+    if parts.len() == 1 {
+        return listed == actual;
     }
+    let mut pos = 0usize;
+    for (i, p) in parts.iter().enumerate() {
+        if i == 0 {
+            if !actual.starts_with(p) {
+                return false;
+            }
+            pos = p.len();
+        } else if i == parts.len() - 1 {
+            return actual.len() >= pos + p.len() && actual[pos..].ends_with(p);
+        } else {
+            match actual[pos..].find(p) {
+                Some(k) => pos += k + p.len(),
+                None => return false,
+            }
+        }
+    }
+    true
 }
 
 pub struct Outcome {
